@@ -144,6 +144,17 @@ CHECKS = {
         note="In (b)-(d) all symbolic variables are discrete selectors: the guarantee equals bounded exhaustive exploration of fault "
              "histories of the real coroutine; _connect_once, asyncio.sleep, interrupt, create_future, async_create_task are stubs.",
         design="DESIGN.md section 5 C10"),
+    "C11": dict(
+        text="PARTIAL: the real secure/insecure _connect_once (from the point where the socket exists), post_tlv/post/request, the "
+             "protocol's _send_lines/data_received/connection_made/connection_lost, HttpResponse, _drop_transport, close, "
+             "_stop_connector and _connection_lost run against a harness-side network model for every history of K (quick 2, "
+             "thorough 3) connection attempts x 10 set-up outcomes, one peer close or late connection_lost of any connection made so "
+             "far, and close() with the connector in each of 5 states: at most one open connection and it is the current one, none "
+             "left after a failed set-up or close(), close() never raises, a stale loss does not disturb the current connection. "
+             "NOT decided: real sockets/tasks, close() racing a running attempt.",
+        note="All symbolic variables are discrete selectors (bounded exhaustive exploration of fault histories of the real coroutines); "
+             "fake loop/transport, scripted get_session_keys, immediate replies.",
+        design="DESIGN.md section 5 C11"),
 }
 
 NOT_APPLICABLE = {
